@@ -482,6 +482,21 @@ fn main() {
         Some("worker") if args.len() >= 7 => worker(&args[1..]),
         Some("replay") if args.len() >= 2 => replay(&args[1]),
         Some("selftest") => selftest(&args[1..]),
+        // (internal) open a data directory the way a freshly started server process does, read once, exit
+        Some("first-open") if args.len() >= 2 => {
+            use taskchampion_sync_server_core::Storage;
+            match taskchampion_sync_server_storage_sqlite::SqliteStorage::new(&args[1]) {
+                Ok(st) => {
+                    let r = st.txn(uuid::Uuid::nil()).and_then(|mut t| t.get_client().map(|_| ()));
+                    if r.is_ok() {
+                        0
+                    } else {
+                        3
+                    }
+                }
+                Err(_) => 3,
+            }
+        }
         Some("gen-corpus") if args.len() >= 3 => {
             quiet_panics();
             match compat::gen_corpus(Path::new(&args[1]), &args[2]) {
